@@ -23,7 +23,8 @@ CODEC_NOTE = ("Trusted: Coq kernel (coqc 8.16.1; vm_compute for table sweeps and
               "the Go driver harness/codecdrv compiled at check time against bindings produced by the REAL generator of the current tree from the family "
               "manifest (checks/family.py), the generated cases_*.v. Modelled, not verified: strconv float text (the driver records Go's own text / parse result per "
               "float: the oracle is strconv), easyjson's lexer (strict RFC 8259 parser Codec/Json.v, claimed only on well-formed documents), net/url unescaping. "
-              "v2 module only (the root module's codec is not exercised). Custom typerefs and partial-update structs are not modelled. No axioms (Print Assumptions: closed).")
+              "v2 is the modelled generation; the root module is exercised through the same family pushed through the real root generator, with the v2 model instantiated on the flattened environment "
+              "(C01 C04 C06 C07 C10 C11 C13 C16; C09 is a v2-only property; root partial-update bindings: oracle only). Custom typerefs are not modelled. No axioms (Print Assumptions: closed).")
 
 def codec(text, technique, design):
     return dict(text=text, note=CODEC_NOTE, technique=technique, design=design)
@@ -161,6 +162,26 @@ CLAIMED["C13"]["text"] = ("Coq proofs for ALL schemas and documents over the dec
     "(defaults of included records - known finding D28; a top-level record that raises the missing-fields error skips its own defaults). Correspondence + oracle: documents omitting random subsets of defaulted fields (direct, nested, included; primitive, enum, fixed, bytes, record, union, "
     "array and map defaults) decoded by the JSON, ROR2 and untyped readers; New...WithDefaultValues constructors; freshness of default-populated values (elements included) across decoded and constructed instances.")
 CLAIMED["C07"]["text"] = CLAIMED["C07"]["text"] + " Partial updates (Props/C11_patch.v): a patch touching an excluded field fails on the client before anything is sent and is rejected by the server-side reader with the per-method leading-scope offsets."
+
+# ---- coverage added later: untyped reader model, ROR2 refinement, decode under any exclusion spec, root-module twins ----
+ROOT_TWIN = (" ROOT module generation: the same family is pushed through the real root generator and the same oracles and model (instantiated on the flattened "
+             "environment, Corr/Root*.v; encoders modulo member order, decoders exactly) run against the root bindings.")
+CLAIMED["C06"]["text"] = CLAIMED["C06"]["text"].replace("the cursor-level ROR2 reader is being proved to refine the tree decoder (Props/C06_ror", "the cursor-level ROR2 reader is PROVED to refine the tree decoder exactly, errors and landing position included (decR_refines, Props/C06_ror") + (
+    " Untyped reader (NewInterfaceReader): modelled over trees of Go values (Codec/AnyReader.v), proved never to panic and to agree with the JSON reader on documents satisfying untyped_exact "
+    "(readers_agree; the excluded cases are genuine reader-kind differences with vm_compute witnesses), compared with the implementation on hostile native Go values (mode cany)." + ROOT_TWIN)
+CLAIMED["C04"]["text"] = CLAIMED["C04"]["text"] + (" Untyped reader: decA_never_panics (unconditional) + mode cany on hostile native Go values (typed nils, pointers, every int/uint width, extreme floats, "
+    "named byte slices, chans, funcs, cyclic values under a deadline). HTTP level: malformed requests/responses through the generated server and client (oracle)." + ROOT_TWIN)
+CLAIMED["C07"]["text"] = CLAIMED["C07"]["text"] + (" Whole-document decode under ANY exclusion spec (Props/C07_decode.v): the decoder rejects iff the document carries an excluded member at a position it reaches "
+    "(error = first offender in document order), otherwise reports exactly the absent required fields that are not excluded, for the JSON tree decoder, the cursor-level ROR2 reader (through decR_refines) and the "
+    "untyped reader (through readers_agree); genuine corner cases kept as refuted statements with witnesses (array items are not consulted, error names the first offender so it is order dependent, unknown members are "
+    "checked against the spec before the field lookup, non-well-formed directive sets). Binding level: which spec the generated client / RegisterResource hand to the codec per method (oracle on the family resources: "
+    "read-only only / create-only only / both / none)." + ROOT_TWIN)
+for _p in ("C01", "C11", "C13"):
+    CLAIMED[_p]["text"] = CLAIMED[_p]["text"] + ROOT_TWIN
+CLAIMED["C10"]["text"] = CLAIMED["C10"]["text"] + " ROOT module: generated Equals/ComputeHash of the root generator and root fnv1a/equals against the same model on the flattened environment (Corr/RootHashCorr.v); the translator compares the root and v2 fnv1a/equals sources on every run."
+CLAIMED["C16"]["text"] = CLAIMED["C16"]["text"] + " ROOT module: root batchkeyset and restlidata.BatchResponse re-keying against the same model with the root tables (Corr/RootKeySetCorr.v)."
+CLAIMED["C10"]["note"] = CLAIMED["C10"]["note"].replace("(v2)", "(v2 and root)")
+CLAIMED["C16"]["note"] = CLAIMED["C16"]["note"].replace(" v2 module.", " v2 and root modules.")
 
 def main():
     checks, na = [], []
